@@ -133,6 +133,24 @@ func fillTo(r *Rng, p interface{}, target int) {
 	}
 }
 
+// cleanRoundTrip: Marshal -> ReadPDU of a clone of p, with nothing in front of it, gives p back
+func cleanRoundTrip(p interface{}) bool {
+	_, err, w, panicked, _ := marshalRec(clonePDU(p))
+	if err != nil || panicked || len(w.calls) != 1 {
+		return false
+	}
+	o := readOnce(&chunkReader{data: w.calls[0], sched: []int{len(w.calls[0])}})
+	if o.Kind != "ok" {
+		return false
+	}
+	h := reflect.ValueOf(p).Elem().Field(0).Interface().(pdu.Header)
+	if h.CommandStatus != 0 {
+		oh := reflect.ValueOf(o.PDU).Elem().Field(0).Interface().(pdu.Header)
+		return oh.CommandStatus == h.CommandStatus && oh.Sequence == h.Sequence
+	}
+	return canonNoLenID(o.PDU) == canonNoLenID(p)
+}
+
 func corrC01(r *Run) {
 	r.Import("Model.PduRun")
 	r.PerShard(60)
@@ -149,6 +167,7 @@ func corrC01(r *Run) {
 	perType := caseBudget / len(ts) // every type gets its share of the kernel cases (responses come last in id order)
 	for _, t := range ts {
 		typeBudget := perType
+		poisons := allPoisons(t, poisonBase(r.Rng, t))
 		for i := 0; i < n+volPerType; i++ {
 			p := genPDU(r.Rng, t, modeDomain)
 			switch {
@@ -168,32 +187,31 @@ func corrC01(r *Run) {
 				h := reflect.ValueOf(p).Elem().Field(0).Addr().Interface().(*pdu.Header)
 				h.CommandStatus = pdu.CommandStatus(r.Rng.Pick([]int{1, 0xFF, 0x400, int(uint32(r.Rng.U64()) | 1)}))
 			}
-			if i%6 == 2 {
-				// a Marshal that fails half-way first: nothing of it may show up in the next frame
-				bad := clonePDU(p)
-				bv := reflect.ValueOf(bad).Elem()
-				for j := bv.NumField() - 1; j > 0; j-- {
-					if bv.Field(j).Kind() == reflect.String {
-						bv.Field(j).SetString("stale\x00residue")
-						break
-					}
-					if a, ok := bv.Field(j).Interface().(pdu.Address); ok {
-						a.No = "98\x0076"
-						bv.Field(j).Set(reflect.ValueOf(a))
-						break
-					}
+			// a Marshal call that FAILS first — every refusal kind at every field position of this type and destinations that
+			// give up after k octets, in rotation: nothing of it may show up in the round trip of the next value
+			var hist *poison
+			if len(poisons) > 0 {
+				x := poisons[i%len(poisons)]
+				if failed, _, _ := x.run(); failed {
+					hist = &x
 				}
-				_, _, _, _, _ = marshalRec(bad)
 			}
 			orig := clonePDU(p)
 			term := coqValue(orig)
-			r.SetReplay(replayValue(orig))
+			rp := replayValue(orig)
+			if hist != nil {
+				rp["failed_call_before"] = hist.replay()
+			}
+			r.SetReplay(rp)
 			valueLine := canonValueLine(orig)
 			_, err, w, panicked, pmsg := marshalRec(p)
 			vol.marshal(t.ID, valueLine, term, err, panicked, w)
 			in := fmt.Sprintf("roundtrip %s %s", t.Name, term)
 			if len(in) > 4000 {
 				in = in[:4000] + "…"
+			}
+			if hist != nil {
+				in = fmt.Sprintf("after a Marshal that failed (%s): ", *hist) + in
 			}
 			if panicked {
 				r.Fail("roundtrip/marshal-panic/"+t.Name, "Marshal panicked on a representable value", in, pmsg, "no panic")
@@ -223,6 +241,11 @@ func corrC01(r *Run) {
 				r.Sample(map[string]interface{}{"type": t.Name, "value": term, "frame_octets": len(frame), "schedule": schedString(sched)})
 			}
 			fail := func(class, what, obs, req string) {
+				if hist != nil && cleanRoundTrip(orig) {
+					// the same value survives the trip when no failed call precedes it: state carried between Marshal calls
+					class = "roundtrip/after-failed-marshal/" + hist.kind + "/" + strings.TrimPrefix(class, "roundtrip/")
+					what += " — only after an unrelated Marshal call had failed"
+				}
 				r.Fail(class, what, in+fmt.Sprintf(" frame=%s sched=%s", shortHex(frame), schedString(sched)), obs, req)
 			}
 			switch {
@@ -268,6 +291,38 @@ func corrC01(r *Run) {
 					fmt.Sprintf("beq_obytes (marshal %s %s) (Ok %s) && beq_read (run_read %s %s) %s",
 						layoutRef(t.ID), term, coqHex(frame), coqHex(c.data), schedTerm(sched), o.term()))
 			}
+		}
+	}
+	// deterministic corpus of semantically loaded contents in every C-octet-string / address / destination / unsuccess
+	// position of every type (harness/pdu_corpus.go): Marshal -> ReadPDU must return them unchanged
+	for k, it := range corpusPDUs(ts, 1, 0) {
+		orig := clonePDU(it.p)
+		r.SetReplay(replayValue(orig))
+		_, err, w, panicked, pmsg := marshalRec(it.p)
+		in := "roundtrip (loaded content " + it.what + ") " + it.t.Name + " " + coqValue(orig)
+		if panicked {
+			r.Fail("roundtrip/marshal-panic/"+it.t.Name, "Marshal panicked on a representable value", in, pmsg, "no panic")
+			continue
+		}
+		if err != nil || len(w.calls) != 1 {
+			r.Fail("roundtrip/marshal-refused/"+it.t.Name, "Marshal refused a representable value (NUL-free strings, octet fields)", in, fmt.Sprint(err), "a frame")
+			continue
+		}
+		frame := w.calls[0]
+		o := readOnce(&chunkReader{data: frame, sched: []int{len(frame)}})
+		r.Count(it.what, true, "loaded-content")
+		switch {
+		case o.Kind == "panic":
+			r.Fail("roundtrip/readpdu-panic/"+it.t.Name, "ReadPDU panicked on Marshal's output", in, o.Msg, "no panic")
+		case o.Kind != "ok":
+			r.Fail("roundtrip/readpdu-error/"+it.t.Name, "ReadPDU rejected Marshal's output", in+" frame="+shortHex(frame), fmt.Sprintf("%s err=%v", o.Kind, o.Err), "success")
+		case canonNoLenID(o.PDU) != canonNoLenID(orig):
+			r.Fail("roundtrip/value/"+it.t.Name, "decoded PDU differs from the original", in+" frame="+shortHex(frame), canonNoLenID(o.PDU), canonNoLenID(orig))
+		}
+		if k%400 == int(r.Seed%400) {
+			r.Case("marshal+readpdu (loaded content) "+it.what,
+				fmt.Sprintf("beq_obytes (marshal %s %s) (Ok %s) && beq_read (run_read %s []) %s",
+					layoutRef(it.t.ID), coqValue(orig), coqHex(frame), coqHex(frame), o.term()))
 		}
 	}
 }
